@@ -497,6 +497,7 @@ theorem validateWriteScope_use {s : State} {id : ScopeId} {owners : List Party} 
     (h : validateWriteScope s id owners rollup vo signers = .ok (a, agents)) :
     vo ≠ "" → ∀ x, HolderIs s.ledger id (some x) → x ≠ vo →
       VoUsed s s.grants a.grants (effectiveSigners s signers) .write x := by
+  have hsd := validateWriteScope_scopeDenom h
   unfold validateWriteScope at h
   split at h
   · simp at h
@@ -524,7 +525,7 @@ theorem validateWriteScope_use {s : State} {id : ScopeId} {owners : List Party} 
             have hr3 := validateSmartContractSigners_reach hc
             have hu : AuthUse s.grants a3 := ((hr1.trans hr2).trans hr3).authUse (authUse_init _)
             intro hvo x ho hne
-            obtain ⟨o0, ho0, hne0, hsc0⟩ := hinv id
+            obtain ⟨o0, ho0, hne0, hsc0⟩ := hinv id hsd
             have := holderIs_unique ho ho0; subst this
             unfold writeExistingVO at hev
             rw [findScope_isSome] at hev
@@ -566,7 +567,7 @@ theorem write_use {s s' : State} {id : ScopeId} {owners : List Party} {rollup : 
         | error e => rw [hsv] at h; simp at h
         | ok s2 =>
           rw [hsv] at h; simp at h; subst h
-          have hfr := (setScopeValueOwner_spec (s := { s with grants := a.grants }) hinv.allHeld hsv).1
+          have hfr := (setScopeValueOwner_spec (s := { s with grants := a.grants }) hinv.allHeld (validateWriteScope_scopeDenom hv) hsv).1
           simp only [putScope]; exact hfr.grants
       rw [hg]
       exact huse hvo x hb hxv
@@ -574,6 +575,7 @@ theorem write_use {s s' : State} {id : ScopeId} {owners : List Party} {rollup : 
 theorem validateDeleteScope_use {s : State} {id : ScopeId} {signers : List Addr} {a : Auth} {agents : List Addr}
     (hinv : Inv s) (h : validateDeleteScope s id signers = .ok (a, agents)) :
     ∀ x, HolderIs s.ledger id (some x) → VoUsed s s.grants a.grants (effectiveSigners s signers) .delete x := by
+  have hsd := validateDeleteScope_scopeDenom h
   unfold validateDeleteScope at h
   split at h
   · simp at h
@@ -586,7 +588,7 @@ theorem validateDeleteScope_use {s : State} {id : ScopeId} {signers : List Addr}
       | ok r =>
         obtain ⟨a1, used1⟩ := r
         rw [hp] at h; simp only at h
-        obtain ⟨o0, ho0, hne0, _⟩ := hinv id
+        obtain ⟨o0, ho0, hne0, _⟩ := hinv id hsd
         rw [denomOwner_of_holderIs ho0] at h; simp only at h
         cases hv : validateScopeValueOwnersSigners s a1 o0.toList "" signers .delete with
         | error er => rw [hv] at h; simp at h
@@ -627,7 +629,7 @@ theorem delete_use {s s' : State} {id : ScopeId} {signers : List Addr}
       | error e => rw [hsv] at h; simp at h
       | ok s2 =>
         rw [hsv] at h; simp at h; subst h
-        obtain ⟨hfr, hother, _⟩ := setScopeValueOwner_spec (s := { s with grants := a.grants }) hinv.allHeld hsv
+        obtain ⟨hfr, hother, _⟩ := setScopeValueOwner_spec (s := { s with grants := a.grants }) hinv.allHeld (validateDeleteScope_scopeDenom hv) hsv
         have hd : d = id := by
           apply Classical.byContradiction
           intro hd
@@ -675,7 +677,8 @@ theorem moveValueOwners_use {s s' : State} {links : List Link} {vo : Addr} {sign
     {mt : MsgType} {a : Auth} {agents : List Addr} (hinv : Inv s)
     (hv : validateUpdateValueOwners s links vo signers mt = .ok (a, agents))
     (h : setScopeValueOwners { s with grants := a.grants } agents links vo = .ok s')
-    {d : ScopeId} {x : Addr} (hb : HolderIs s.ledger d (some x)) (ha : ¬ HolderIs s'.ledger d (some x)) :
+    {d : ScopeId} {x : Addr} (hdd : isScopeDenom d = true)
+    (hb : HolderIs s.ledger d (some x)) (ha : ¬ HolderIs s'.ledger d (some x)) :
     VoUsed s s.grants s'.grants (effectiveSigners s signers) mt x := by
   have huse := validateUpdateValueOwners_use hv
   obtain ⟨hfr, hmoves⟩ := setScopeValueOwners_spec h
@@ -685,7 +688,7 @@ theorem moveValueOwners_use {s s' : State} {links : List Link} {vo : Addr} {sign
   · exact absurd h1 ha
   · injection he with he; subst he
     have hx0 : x ≠ "" := by
-      obtain ⟨o1, ho1, hn1, _⟩ := hinv d
+      obtain ⟨o1, ho1, hn1, _⟩ := hinv d hdd
       have := holderIs_unique hb ho1; subst this
       intro e; exact hn1 (by rw [e])
     exact huse x hf hx0 hfne
